@@ -207,23 +207,28 @@ Definition scalar_eq (a b : pv) : bool :=
 Definition in_values (v : pv) (vals : list pv) : bool := existsb (scalar_eq v) vals.
 
 (* The routine classes of unmarshals/routines.py by their first step.
-   decode first : NoneType String Number(+Decimal,Fraction) Date DateTime Time TimeDelta Pattern
-   load first   : UUID Cast(Path, Enum, bare Mapping, bare Iterable) SubscriptedMapping
+   decode first : NoneType String Number(+Decimal,Fraction) Date DateTime Time TimeDelta Pattern Path
+   load first   : UUID Cast(bare Mapping, bare Iterable) SubscriptedMapping
                   SubscriptedIterable SubscriptedIterator FixedTuple StructuredType
+   Enum         : caster(decode(val)); on ValueError / TypeError caster(load(val))
    Literal      : raw membership test, then load, then membership test
    Union        : each member routine in turn on the raw input
    NoOp         : the input itself;  Bytes: isinstance test first (bytes-like target). *)
 Inductive head :=
 | HNoOp | HBytes
-| HNoneType | HString | HNumber | HDate | HDateTime | HTime | HTimeDelta | HPattern
+| HNoneType | HString | HNumber | HDate | HDateTime | HTime | HTimeDelta | HPattern | HPath
 | HUUID | HCast | HSubMapping | HSubIterable | HSubIterator | HFixedTuple | HStructured
+| HEnum
 | HLiteral (vals : list pv)
 | HUnion (members : list head).
 
 Definition decode_first (h : head) : bool :=
   match h with
-  | HNoneType | HString | HNumber | HDate | HDateTime | HTime | HTimeDelta | HPattern => true
+  | HNoneType | HString | HNumber | HDate | HDateTime | HTime | HTimeDelta | HPattern | HPath => true
   | _ => false end.
+(* EnumUnmarshaller: contextlib.suppress(ValueError, TypeError) around caster(decode(val)) *)
+Definition enum_suppressed (e : exn) : bool :=
+  match e with EValue | EUnicode | EType => true | _ => false end.
 Definition load_first (h : head) : bool :=
   match h with
   | HUUID | HCast | HSubMapping | HSubIterable | HSubIterator | HFixedTuple | HStructured => true
@@ -247,9 +252,24 @@ Fixpoint entry_gen (h : head) (v : pv) {struct h} : res pv :=
   match h with
   | HNoOp => Ok v
   | HBytes => whole h v
-  | HNoneType | HString | HNumber | HDate | HDateTime | HTime | HTimeDelta | HPattern =>
+  | HNoneType | HString | HNumber | HDate | HDateTime | HTime | HTimeDelta | HPattern | HPath =>
       match v with
       | PText k p => bind (decode_text k p) (fun s => rest h (PStr s))
+      | _ => whole h v
+      end
+  | HEnum =>
+      (* with suppress(ValueError, TypeError): return self.caster(serdes.decode(val))
+         return self.caster(serdes.load(val))            -- rest HEnum = self.caster *)
+      match v with
+      | PText k p =>
+          let second := bind (load_gen fixd v) (rest h) in
+          match decode_text k p with
+          | Ok s => match rest h (PStr s) with
+                    | Ok x => Ok x
+                    | Raise e => if enum_suppressed e then second else Raise e
+                    end
+          | Raise e => if enum_suppressed e then second else Raise e
+          end
       | _ => whole h v
       end
   | HUUID | HCast | HSubMapping | HSubIterable | HSubIterator | HFixedTuple | HStructured =>
